@@ -99,6 +99,9 @@ func main() {
 	if h.want("ante") {
 		h.stageAnte()
 	}
+	if h.want("handlers") {
+		h.stageHandlers()
+	}
 	if h.want("model") {
 		h.stageModel()
 	}
